@@ -173,7 +173,9 @@ def run(ctx):
                         ctx.violation({"broken": "trace-parse", "trace_head": tr[:500]}, found_input=False)
                     else:
                         traces.append(t[0]); tmeta.append((chain[0], cfg, st))
+        reader_state_oracle(ctx, tmpdir)
         early_exit_correspondence(ctx, tmpdir)
+        context_correspondence(ctx, tmpdir)
         c04_flush.run_flush(ctx)
     finally:
         import shutil
@@ -191,6 +193,206 @@ def run(ctx):
             ch, cfg, st = tmeta[i]
             ctx.violation({"broken": "correspondence C04.Harness.chk: a goroutine of the real binary left the model's control automaton",
                            "chain": ch, "config": [cfg[0], cfg[1], cfg[2]], "trace": traces[i][:1500]}, found_input=False)
+
+
+def reader_state_inputs(rng, tmpdir):
+    """(name, main flags, verb argv, stdin bytes | None, file list) -- inputs whose READER carries state from one line to
+    the next (current header, schema changes after a blank line, implicit header, ragged rows, comment handling,
+    multi-line records, several files with per-file headers, NR/FNR/FILENAME), so that a cut into batches at ANY line
+    can be observed.  Positions of blank lines / headers / comments are seeded."""
+    def csv_blocks(nblocks, sep=",", widths=None):
+        lines, i = [], 0
+        for b in range(nblocks):
+            w = (widths[b] if widths else rng.choice([2, 3, 3, 4]))
+            names = ["%s%d" % ("abcdefg"[b % 7], j) for j in range(w)]
+            lines.append(sep.join(names))
+            for _ in range(rng.randint(1, 6)):
+                i += 1
+                lines.append(sep.join(str(10 * i + j) for j in range(w)))
+            lines.append("")
+        return ("\n".join(lines[:-1]) + "\n").encode()
+    I = []
+    for k in range(3):
+        I.append(("csvlite-schema-change-%d" % k, ["--icsvlite", "--ojsonl"], ["cat"], csv_blocks(rng.randint(2, 4)), []))
+    I.append(("csvlite-schema-change-same-width", ["--icsvlite", "--ojsonl"], ["put", "$nr = NR"], csv_blocks(3, widths=[3, 3, 3]), []))
+    I.append(("csvlite-schema-change-ocsvlite", ["--icsvlite", "--ocsvlite"], ["cat"], csv_blocks(3), []))
+    I.append(("csvlite-ragged", ["--icsvlite", "--allow-ragged-csv-input", "--ojsonl"], ["cat"],
+              b"a,b,c\n1,2,3\n4,5\n6,7,8,9\n\nx,y\n1\n2,3\n4,5,6\n", []))
+    I.append(("csvlite-data-length-error", ["--icsvlite", "--ojsonl"], ["cat"], b"a,b,c\n1,2,3\n4,5,6\n7,8\n9,9,9\n", []))
+    I.append(("tsvlite-schema-change", ["--itsvlite", "--ojsonl"], ["cat"], csv_blocks(3, sep="\t"), []))
+    I.append(("pprint-schema-change", ["--ipprint", "--ojsonl"], ["cat"],
+              b"a   b   c\n1   2   3\n4   5   6\n\nx y\n7 8\n9 10\n11 12\n\np\n13\n", []))
+    I.append(("pprint-barred", ["--ipprint", "--barred-input", "--ojsonl"], ["cat"],
+              b"+---+---+\n| a | b |\n+---+---+\n| 1 | 2 |\n| 3 | 4 |\n| 5 | 6 |\n+---+---+\n", []))
+    I.append(("csv-implicit-header", ["--icsv", "--implicit-csv-header", "--ojsonl"], ["put", "$nr = NR"],
+              b"".join(b"%d,%d,%d\n" % (i, 2 * i, 3 * i) for i in range(1, 12)), []))
+    I.append(("csv-headerless-output", ["--csv", "--headerless-csv-output"], ["cat"], b"a,b\n" + b"".join(b"%d,%d\n" % (i, i) for i in range(1, 9)), []))
+    I.append(("csv-quoted-newlines", ["--icsv", "--ojsonl"], ["cat"],
+              b'a,b\n1,"x\ny"\n2,"p\nq\nr"\n3,plain\n4,"u,v"\n5,"w""z"\n', []))
+    I.append(("csv-ragged", ["--icsv", "--allow-ragged-csv-input", "--ojsonl"], ["cat"], b"a,b,c\n1,2,3\n4,5\n6,7,8,9\n10\n", []))
+    I.append(("csv-data-length-error", ["--icsv", "--ojsonl"], ["cat"], b"a,b,c\n1,2,3\n4,5,6\n7,8\n9,9,9\n", []))
+    I.append(("csv-unsparsify-keys-change", ["--icsv", "--ocsv"], ["put", "if (NR % 3 == 0) {$extra = NR}"],
+              b"a,b\n" + b"".join(b"%d,%d\n" % (i, i) for i in range(1, 10)), []))
+    I.append(("csv-bom-dedupe", ["--icsv", "--ojsonl"], ["cat"], b"\xef\xbb\xbfa,a,b\n1,2,3\n4,5,6\n7,8,9\n", []))
+    I.append(("tsv-escapes", ["--itsv", "--ojsonl"], ["cat"], b"a\tb\n1\tx\\ty\n2\tz\n3\tw\\nv\n4\tq\n", []))
+    I.append(("xtab-stanzas", ["--ixtab", "--ojsonl"], ["put", "$nr = NR"],
+              b"".join(b"a %d\nb %d\nccc %d\n\n" % (i, i, i) for i in range(1, 7)) + b"\n\nx 1\n", []))
+    I.append(("json-multiline", ["--ijson", "--ojsonl"], ["put", "$nr = NR"],
+              b"".join(b'{\n  "a": %d,\n  "b": {"c": [%d, %d]}\n}\n' % (i, i, i) for i in range(1, 8)), []))
+    I.append(("json-array", ["--ijson", "--ojson"], ["cat"], b"[" + b",\n".join(b'{"a":%d}' % i for i in range(1, 9)) + b"]\n", []))
+    I.append(("json-malformed-late", ["--ijson", "--ojsonl"], ["cat"], b"".join(b'{"a":%d}\n' % i for i in range(1, 7)) + b'{"a":\n', []))
+    I.append(("nidx", ["--inidx", "--ifs", " ", "--ojsonl"], ["cat"], b"".join(b"x%d  y%d z\n" % (i, i) for i in range(1, 10)), []))
+    I.append(("markdown-in", ["--imd", "--ojsonl"], ["cat"], b"| a | b |\n| --- | --- |\n| 1 | 2 |\n| 3 | 4 |\n| 5 | 6 |\n", []))
+    cpos = sorted(rng.sample(range(0, 10), 3))
+    body = []
+    for i in range(10):
+        if i in cpos:
+            body.append(b"# comment %d\n" % i)
+        body.append(b"a=%d,b=%d\n" % (i, i * i))
+    I.append(("dkvp-pass-comments", ["--pass-comments", "--ojsonl"], ["cat"], b"".join(body), []))
+    I.append(("dkvp-skip-comments", ["--skip-comments", "--ojsonl"], ["put", "$nr = NR"], b"".join(body), []))
+    I.append(("csv-pass-comments", ["--icsv", "--pass-comments", "--ojsonl"], ["cat"], b"# top\na,b\n1,2\n# mid\n3,4\n5,6\n# end\n", []))
+    I.append(("csvlite-pass-comments-schema-change", ["--icsvlite", "--pass-comments", "--ojsonl"], ["cat"],
+              b"a,b\n1,2\n# c1\n\nc,d,e\n3,4,5\n# c2\n6,7,8\n", []))
+    I.append(("irs-semicolon", ["--irs", ";", "--ojsonl"], ["cat"], b";".join(b"a=%d" % i for i in range(1, 12)) + b";", []))
+    I.append(("ifs-multichar-repifs", ["--inidx", "--ifs", ";;", "--repifs", "--ojsonl"], ["cat"], b"".join(b"p%d;;;;q%d;;r\n" % (i, i) for i in range(1, 8)), []))
+    # several files: per-file headers, FNR and FILENAME, a header-only file and an empty file in the middle
+    fs = []
+    for j, (hdr, nrec) in enumerate([("a,b", 4), ("a,b", 0), ("b,a", 3), (None, 0), ("a,b,c", 5)]):
+        f = os.path.join(tmpdir, "rs.%d.csv" % j)
+        with open(f, "wb") as fh:
+            if hdr is not None:
+                fh.write((hdr + "\n").encode())
+                w = hdr.count(",") + 1
+                for i in range(nrec):
+                    fh.write((",".join(str(100 * j + 10 * i + c) for c in range(w)) + "\n").encode())
+        fs.append(f)
+    ctxput = ["put", "$nr = NR; $fnr = FNR; $f = sub(FILENAME, \".*/\", \"\")"]
+    I.append(("csv-multi-file", ["--icsv", "--ojsonl"], ctxput, None, fs))
+    I.append(("csvlite-multi-file", ["--icsvlite", "--ojsonl"], ctxput, None, fs))
+    I.append(("csvlite-multi-file-ocsvlite", ["--icsvlite", "--ocsvlite"], ["cat"], None, fs))
+    I.append(("csv-multi-file-implicit-header", ["--icsv", "--implicit-csv-header", "--allow-ragged-csv-input", "--ojsonl"], ctxput, None, fs))
+    I.append(("csv-multi-file-end-block", ["--icsv", "--ojsonl"], ["put", "-q", "@n[FILENAME] = FNR; end { emit @n; print NR }"], None, [fs[0], fs[2], fs[4]]))
+    I.append(("nothing-multi-file-end-context", ["--icsv", "--ojsonl"], ["put", "-q", "end { print NR . \":\" . FNR . \":\" . sub(FILENAME, \".*/\", \"\") }"], None, [fs[0], fs[2]]))
+    return I
+
+
+def reader_state_oracle(ctx, tmpdir):
+    """Batch independence of the READERS: for every input above, stdout bytes and exit status with
+    --records-per-batch 1, 2, 3, 5, 7 (with 1 every line is at a batch boundary) must equal those at the default 500."""
+    rng = ctx.rng
+    inputs = reader_state_inputs(rng, tmpdir)
+    sizes = [500, 1, 2, 3, 5, 7]
+    jobs = [(inp, b) for inp in inputs for b in sizes]
+
+    def one(j):
+        (name, mflags, argv, data, files), b = j
+        return mlr_run(ctx, ["--records-per-batch", str(b)] + mflags + argv + files, data or b"", timeout=60)
+    from concurrent.futures import ThreadPoolExecutor
+    with ThreadPoolExecutor(max_workers=8) as ex:
+        res = list(ex.map(one, jobs))
+    ref = {}
+    reported = set()
+    for ((name, mflags, argv, data, files), b), (st, out, err) in zip(jobs, res):
+        ctx.count(("reader-state", name, b)); ctx.dist("reader-state:" + name.split("-")[0])
+        if st == "hang":
+            ctx.violation({"class": "hang:reader-state:" + name, "what": "run does not terminate", "main_flags": ["--records-per-batch", str(b)] + mflags, "chain": argv,
+                           "stdin": (data or b"").decode("latin1"), "files": [open(f, "rb").read().decode("latin1") for f in files]})
+            continue
+        if b == 500:
+            ref[name] = (st, out, err)
+            continue
+        rst, rout, rerr = ref[name]
+        # "a run that fails under one setting fails under all": failing runs need only agree on failing (what was
+        # written before the failure is not pinned down by the statement); successful runs agree byte for byte
+        both_fail = (st != 0 and rst != 0)
+        if not both_fail and (st, out) != (rst, rout) and name not in reported:
+            reported.add(name)
+            ctx.violation({"class": "output-depends-on-batch-size:reader:" + name,
+                           "what": "stdout/exit status differ between --records-per-batch 500 and %d" % b,
+                           "main_flags": mflags, "chain": argv, "stdin": (data or b"").decode("latin1"),
+                           "files": [open(f, "rb").read().decode("latin1") for f in files],
+                           "status_500": rst, "status_b": st, "records_per_batch": b,
+                           "stdout_500": rout[:600].decode("latin1"), "stdout_b": out[:600].decode("latin1"),
+                           "stderr_500": rerr[-300:].decode("latin1"), "stderr_b": err[-300:].decode("latin1"),
+                           "how": "mlr --records-per-batch %d %s  <the stdin/files above>  vs the same with --records-per-batch 500" % (b, " ".join(mflags + argv))})
+    ctx.cov["reader_state_inputs"] = len(inputs)
+
+
+CDESC = {"cat": 0, "printnr": 1, "endnr": 2, "tac": 3}
+
+
+def context_correspondence(ctx, tmpdir):
+    """The data model WITH RECORD CONTEXT (coq/C04/CtxModel.v) against the binary: chains of cat / tac / head -n k /
+    put 'print "p".NR' (the record's own NR) / put -q 'end{print "e".NR}' (the end-of-stream marker's NR): stdout must be
+    an outcome the model allows (CtxModel.ctx_chk under vm_compute): without a head exactly the sequential result with
+    NR = the number of input records (C04_context_determinism_without_early_exit); with a head, the result on some
+    truncation of the input at a batch boundary with NR = the records of that truncation."""
+    rng = ctx.rng
+    fixed = [["endnr"], ["printnr", "endnr"], ["tac", "endnr"], ["printnr", "tac", "endnr"], ["cat", "printnr", "endnr"],
+             ["endnr", "endnr"], [11, "endnr"], [12, "printnr", "endnr"], ["printnr", 12, "endnr"], ["printnr", "tac", 12]]
+    pool_ = ["cat", "printnr", "tac", "endnr", 11, 13]
+    chains = fixed + [[rng.choice(pool_) for _ in range(rng.choice([1, 2, 3]))] + ["endnr"] for _ in range(4 if ctx.tier == "quick" else 60)]
+    jobs = []
+    for ch in chains:
+        for rep in range(2 if ctx.tier == "quick" else 4):
+            jobs.append((ch, rng.choice([5, 9, 14, 22]), rng.choice([1, 2, 3, 5]), None if rep == 0 else rng.randint(1, 10 ** 6)))
+
+    def argv_of(ch):
+        argv = []
+        for v in ch:
+            if argv:
+                argv.append("then")
+            argv += {"cat": ["cat"], "tac": ["tac"], "printnr": ["put", 'print "p".NR'], "endnr": ["put", "-q", 'end{print "e".NR}']}.get(v) or ["head", "-n", str(v - 10)]
+        return argv
+
+    def one(j):
+        ch, n, b, sched = j
+        inp = "".join("i=%d\n" % k for k in range(1, n + 1)).encode()
+        env = {"MLR_VERIF_SCHED": str(sched)} if sched is not None else {}
+        st, out, err = mlr_run(ctx, ["--records-per-batch", str(b)] + argv_of(ch), inp, timeout=60, env=env)
+        if st == "hang":
+            st, out, err = mlr_run(ctx, ["--records-per-batch", str(b)] + argv_of(ch), inp, timeout=300, env=env)
+        return st, out, err
+    from concurrent.futures import ThreadPoolExecutor
+    with ThreadPoolExecutor(max_workers=8) as ex:
+        res = list(ex.map(one, jobs))
+    terms, meta = [], []
+    for (ch, n, b, sched), (st, out, err) in zip(jobs, res):
+        argv = argv_of(ch)
+        ctx.count(("context", tuple(ch), n, b, sched)); ctx.dist("context-model")
+        if st != 0:
+            ctx.violation({"class": ("hang:context:" if st == "hang" else "context-run-failed:") + " ".join(argv), "chain": argv, "status": st,
+                           "stderr_tail": err[-300:].decode("latin1"), "input_records": n, "main_flags": ["--records-per-batch", str(b)]})
+            continue
+        obs, okparse = [], True
+        for line in out.decode("latin1").splitlines():
+            if line.startswith("i=") and line[2:].isdigit():
+                obs.append((0, int(line[2:])))
+            elif line[:1] == "p" and line[1:].isdigit():
+                obs.append((1, int(line[1:])))
+            elif line[:1] == "e" and line[1:].isdigit():
+                obs.append((2, int(line[1:])))
+            else:
+                okparse = False
+        if not okparse:
+            ctx.violation({"class": "context-unexpected-output", "chain": argv, "stdout_head": out[:300].decode("latin1")})
+            continue
+        terms.append("([%s], (%d, %d), [%s])" % ("; ".join(str(CDESC.get(v, v)) for v in ch), n, b, "; ".join("(%d, %d)" % p for p in obs)))
+        meta.append((argv, n, b, sched, out))
+    if terms:
+        with ctx.timed("coq_context_cases"):
+            bad, err = coq_eval_mismatches(ctx, "C04ctx", "C04.CtxModel", "list Z * (Z * Z) * list (Z * Z)", "ctx_chk", terms)
+        ctx.cov["correspondence"]["context_runs"] = len(terms)
+        ctx.cov["correspondence"]["context_rejected"] = len(bad)
+        if err:
+            ctx.violation({"broken": "context-evaluation", "detail": err[-1500:]}, found_input=False)
+        for i in [x for x in bad if x >= 0][:3]:
+            argv, n, b, sched, out = meta[i]
+            ctx.violation({"class": "context-model:" + " ".join(argv), "what": "stdout (record NR / end-block NR) is not an outcome of the data model with record context (C04.CtxModel.ctx_chk)",
+                           "chain": argv, "main_flags": ["--records-per-batch", str(b)], "input_records": n, "sched_seed": sched,
+                           "stdout_head": out[:400].decode("latin1"),
+                           "how": "seq 1 %d | sed s/^/i=/ | mlr --records-per-batch %d %s" % (n, b, " ".join(argv))})
 
 
 DESC = {"cat": 0, "tee": 1, "print": 2, "tac": 3}
